@@ -318,7 +318,12 @@ func run(c Case) *pbt.Violation {
 			return v
 		}
 	}
-	// the server still serves other connections
+	// the server still serves other connections.  When a healthy publisher has just joined the hostile peer's stream
+	// (manager lock, group creation path, relay) the fresh pair on another stream adds little and costs as much as the
+	// rest of the case on a loaded machine: it is run for every fourth of those cases only.
+	if bySub != nil && byPub == nil && len(w.b)%4 != 0 {
+		return nil
+	}
 	return probe(s)
 }
 
